@@ -12,13 +12,14 @@ protocols 2-5 and unpickled and
     committed_state, ``modified``, unloaded set, pending callables, loader
     options (compared as cache keys) and load path); the lifecycle must be what
     pickling can carry: pending -> transient, persistent -> detached,
-  * one-step bisimulation: two fresh replays of the history; in both the session
-    is emptied (``expunge_all``) and the graph root is added back -- the original
-    in one universe, the unpickled copy in the other -- then each probe of
+  * one-step bisimulation: two fresh replays of the history; in one the original
+    stays in its session (a detached / transient one is added), in the other the
+    original graph is expunged and the unpickled copy is added in its place --
+    then each probe of
     ``PROBES`` (read columns / deferred column / relationship, modify + flush,
     append + flush, expire + read, refresh, delete + flush, merge into another
     session, commit + read) must give the same outcome or exception class, the
-    same database rows and the same canonical state afterwards.
+    same database rows and leave the object in the same lifecycle state.
 
 Part B, rows and frozen results (engine I): every statement of the 41-statement
 family (Core and ORM, duplicate / ambiguous column names, typed columns,
@@ -64,13 +65,14 @@ META = dict(
     "(statements), the row carries an ORM entity or duplicate names (rows)",
     assumptions=["mapped classes are importable at module level", "single process: class-level attributes keep their identity across the round trip"],
     bounds=dict(
-        quick="objects: histories <= 3 from 2 roots over 27 ops, protocols 2-5, bisimulation probes with protocol 4; 41 statements x "
+        quick="objects: histories <= 3 from 2 roots over 27 ops, protocols 2-5, bisimulation with protocol 4 (10 probes at depth <= 2, 5 at depth 3); 41 statements x "
         "protocols; 17 MetaData shapes",
         thorough="objects: histories <= 4, bisimulation with all protocols; MetaData: all pairs of feature deviations (~110 shapes)",
     ),
 )
 SHARD_TIMEOUT = dict(quick=900, thorough=3000)
 PROTOS = (2, 3, 4, 5)
+QUICK_DEEP_PROBES = ("read_rel", "set_flush", "append_flush", "expire_read", "delete_flush")
 
 
 def shards(tier, seed):
@@ -148,7 +150,7 @@ def bisim_problems(PW, root, hist, name, proto, probes):
         try:
             oa = ua.objs[name]
             ob = pickle.loads(pickle.dumps(ub.objs[name], proto))
-            ra, rb = PW.reattach(ua, oa), PW.reattach(ub, ob)
+            ra, rb = PW.attach_original(ua, oa), PW.swap_in_copy(ub, ub.objs[name], ob)
             if ra == "ok" and rb == "ok":
                 outa, outb = PW.probe(ua, oa, what), PW.probe(ub, ob, what)
             else:
@@ -162,12 +164,20 @@ def bisim_problems(PW, root, hist, name, proto, probes):
                 out.append(("bisim-attach", "session.add(): original %s, unpickled %s" % (ra, rb), what))
             elif outa != outb:
                 out.append(("bisim-" + what, "probe %s: original %r, unpickled %r" % (what, outa, outb), what))
+            elif isinstance(outa, str) and outa.startswith("!"):
+                # the probe failed the same way in both universes; what the failed flush / rollback does to objects that were
+                # new in this transaction is session knowledge (not carried by a pickle): nothing more to compare
+                pass
             elif dba != dbb:
                 out.append(("bisim-db-" + what, "probe %s leaves different rows: original %r, unpickled %r" % (what, dba, dbb), what))
             else:
-                d = PW.diff_snapshots(posta, postb)
-                if d:
-                    out.append(("bisim-post-" + what, "state after probe %s differs: %s" % (what, d.split(":")[0]), d))
+                # afterwards only what is observable without further SQL: lifecycle and identity of the probed object.  (Which
+                # attributes happen to be loaded / marked expired after the probe depends on the loading history of the session,
+                # e.g. what an expire cascade or a selectin reload touched -- that is not state a pickle is documented to carry.)
+                a1, b1 = posta[0], postb[0]
+                if (a1["lifecycle"], a1["key"]) != (b1["lifecycle"], b1["key"]):
+                    out.append(("bisim-post-" + what, "after probe %s the object is %s %r, the unpickled one %s %r" % (
+                        what, a1["lifecycle"], a1["key"], b1["lifecycle"], b1["key"]), ""))
         finally:
             ua.dispose()
             ub.dispose()
@@ -198,17 +208,20 @@ def probe_state(PW, rec, root, hist, u, tier):
         rec.outcome(("obj", lc, len(snap or ()), tuple((r["cls"], r["lifecycle"], r["expired_attributes"], r["modified"], bool(r["load_options"])) for r in (snap or ()))))
         if nontrivial and len(hist) >= 2 and (len(hist) * 7 + len(name) + len(snap)) % 11 == 0:
             rec.sample(dict(part="object", root=root, history=list(hist), object=name, lifecycle=lc, graph=[(r["cls"], r["lifecycle"], list(r["expired_attributes"]), r["modified"]) for r in snap]))
-        if lc == "deleted" or o in u.s.deleted:
-            rec.count("bisimulation_skipped_deleted_objects")
+        members = PW.graph(o)
+        if any(PW.lifecycle(inspect(x)) == "deleted" or x in u.s.deleted for x in members):
+            # "marked for deletion in this session" is session state; a pickle does not carry it (not in the property's list)
+            rec.count("bisimulation_skipped_graph_has_session_deletes")
             continue
+        probes = PW.PROBES if (tier != "quick" or len(hist) <= 2) else QUICK_DEEP_PROBES
         for proto in ((4,) if tier == "quick" else PROTOS):
-            for kind, text, detail in bisim_problems(PW, root, hist, name, proto, PW.PROBES):
+            for kind, text, detail in bisim_problems(PW, root, hist, name, proto, probes):
                 rec.violation(
                     "object %s (%s): %s" % (type(o).__name__, lc, text.split(":")[0] if kind.startswith("bisim-post") else _generic(text)),
                     "history %s/%s object %s protocol %d\n%s\n%s" % (root, list(hist), name, proto, text, detail),
                     dict(part="obj", root=root, hist=list(hist), name=name, proto=proto, bisim=True), kind=("obj", type(o).__name__, lc, kind),
                 )
-            rec.count("bisimulation_probes", len(PW.PROBES))
+            rec.count("bisimulation_probes", len(probes))
 
 
 def _generic(text):
